@@ -289,7 +289,8 @@ subject_struct!(Scalars {
 
 subject_struct!(FloatOnly { x: [f32] = (1, float) });
 subject_struct!(Floats { x: [f32] = (1, float), y: [f64] = (2, double) });
-subject_struct!(FloatBoxes { o: [Option<f32>] = (1, float), r: [Vec<f32>] = (2, float), b: [Box<f32>] = (3, float) });
+subject_struct!(FloatBoxes { o: [Option<f32>] = (1, float), r: [Vec<f32>] = (2, float) });
+subject_struct!(FloatBox { b: [Box<f32>] = (1, float) });
 
 subject_struct!(Blobs {
     a: [Vec<u8>] = (1, bytes),
@@ -703,6 +704,7 @@ pub fn subjects() -> Vec<Subject> {
         subject::<FloatOnly>(),
         subject::<Floats>(),
         subject::<FloatBoxes>(),
+        subject::<FloatBox>(),
         subject::<Blobs>(),
         Subject { schema: borrowed_schema(), pack: pack_borrowed, unpack: unpack_borrowed },
         subject::<Inner>(),
